@@ -410,8 +410,9 @@ def record(rng, nhosts=3, max_unprep=3, cfg=None, bias=None):
                             if unprep < max_unprep:
                                 ops += [("AnsUnprepared", hn, "-")] * 4
                         elif p.req.get("op") == "PREPARE":
-                            ops += [("AnsPrepare", hn, "same")] * 4 + [("AnsPrepare", hn, "diff"), ("AnsPrepare", hn, "error"),
-                                                                       ("ConnLost", hn, "-")]
+                            ops += [("AnsPrepare", hn, "same")] * 4 + [("AnsPrepare", hn, "diff"), ("AnsPrepare", hn, "error")]
+                            if p.frame.stream in p.conn._requests:          # its handler is still registered
+                                ops.append(("ConnLost", hn, "-"))
                             t = fut._timer
                             if not failed and fut._final_result is _NOT_SET and t is not None and not t.canceled:
                                 ops.append(("Timeout", "-", "-"))
